@@ -1158,6 +1158,13 @@ func (ex *Exec) evalCall(call *ast.CallExpr, st *State) []Value {
 		sig = isig
 	}
 	_ = recvExpr
+	if len(countedCalls) > 0 && ex.spec == 0 {
+		if cn := counterNameOf(fn); countedCalls[cn] {
+			if _, isIface := recvIface(recv); !isIface {
+				defer ex.bumpCalls(st, cn)
+			}
+		}
+	}
 	if recv == nil && fn.Pkg() != nil {
 		for _, xd := range externDirs[ex.frame().pkg.Path()] {
 			if xd.Callee == fn.FullName() {
@@ -1341,4 +1348,32 @@ func qfPart(g *Term) *Term {
 		return mkAnd(keep...)
 	}
 	return tTrue
+}
+
+// counterNameOf: "UDPConn.WriteToUDPAddrPort" for methods (receiver type name without package and pointer),
+// "pkg.Func" for functions.
+func counterNameOf(fn *types.Func) string {
+	sig := fn.Type().(*types.Signature)
+	if r := sig.Recv(); r != nil {
+		t := r.Type()
+		if p, ok := t.(*types.Pointer); ok {
+			t = p.Elem()
+		}
+		if n, ok := t.(*types.Named); ok {
+			return n.Obj().Name() + "." + fn.Name()
+		}
+		return fn.Name()
+	}
+	if fn.Pkg() != nil {
+		return fn.Pkg().Name() + "." + fn.Name()
+	}
+	return fn.Name()
+}
+
+func recvIface(recv *Value) (*types.Interface, bool) {
+	if recv == nil || recv.T == nil {
+		return nil, false
+	}
+	i, ok := recv.T.Underlying().(*types.Interface)
+	return i, ok
 }
